@@ -293,7 +293,8 @@ pub fn root_sessions(maxdepth: u8, hashes: &[usize]) -> Vec<Session> {
     for (ri, r) in tactical_roots().into_iter().enumerate() {
         for (hi, h) in hashes.iter().enumerate() {
             let mut steps = vec![];
-            for d in 1..=maxdepth {
+            // a depth limit of 0 is a valid request: no iteration may be reported, a legal move must still come back
+            for d in 0..=maxdepth {
                 steps.push(Step::Search(r.clone(), Spec::depth(d), Env::Default));
             }
             for d in (1..maxdepth).rev() {
@@ -357,7 +358,9 @@ pub fn clock_expiry_sessions(run: &Run, stats: &Stats, quick: bool) -> Vec<Sessi
     let mut out = vec![];
     for r in roots {
         for tc in &tcs {
-            let spec = Spec { depth: Some(maxdepth), tc: tc.clone(), overhead_ms: 10 };
+            // the explosion roots are there for an expiry inside iteration 1: two iterations are enough
+            let explosive = r.starts_with("q2k2q1") || r.starts_with("R6R");
+            let spec = Spec { depth: Some(if explosive { 2 } else { maxdepth }), tc: tc.clone(), overhead_ms: 10 };
             // unperturbed (frozen clock): count the clock reads
             let g = GameSpec::fen(r);
             let (game, _) = g.build().unwrap();
